@@ -727,10 +727,17 @@ def body_c(W, style, k, version, token, variant='plain', raw_len=0):
                     queue_one, clientbound.login.EncryptionRequestPacket,
                     early=True)
         draws_before = len(W.S.urandom_log)
-        conn.connect()
+        raised = None
+        try:
+            conn.connect()
+        except ToolError:
+            raise
+        except Exception as e:
+            raised = '%s: %s' % (type(e).__name__, e)
         W.settle()
         srv = W.servers[-1] if W.servers else None
-        rec = {'servers': len(W.servers), 'errs_login': list(errs)}
+        rec = {'servers': len(W.servers), 'errs_login': list(errs),
+               'connect_raised': raised}
         if srv is not None:
             ka = [2 ** 40 + 17 * j + 5, -(j + 1), 7]
             if not srv.rank.ge(version, 339):
@@ -748,14 +755,20 @@ def body_c(W, style, k, version, token, variant='plain', raw_len=0):
             if in_play and raw_len and not srv.errors:
                 rec['raw'] = raw_reads(W, conn, srv, raw_len, j)
             if in_play:
-                for i, n in enumerate(ka):
-                    srv.play(('keepalive', n))
+                try:
+                    for i, n in enumerate(ka):
+                        srv.play(('keepalive', n))
+                        conn.write_packet(serverbound.play.ChatPacket(
+                            message=CHATS[(i + j) % len(CHATS)]))
+                        W.settle()
                     conn.write_packet(serverbound.play.ChatPacket(
-                        message=CHATS[(i + j) % len(CHATS)]))
+                        message=CHATS[3]), force=True)
                     W.settle()
-                conn.write_packet(serverbound.play.ChatPacket(
-                    message=CHATS[3]), force=True)
-                W.settle()
+                except ToolError:
+                    raise
+                except Exception as e:
+                    rec['write_raised'] = '%s: %s' % (type(e).__name__, e)
+                    W.settle()
             rec.update(
                 state=srv.state, reactor=type(conn.reactor).__name__,
                 secret=srv.secret, token_back=srv.token_back,
@@ -841,7 +854,9 @@ def judge_c(x, style, k, version, token, variant='plain'):
         who = 'login %d of %d' % (j + 1, k)
         if rec['servers'] != j + 1 or 'state' not in rec:
             out.append(('C no connection', '%s: %d server connections so '
-                        'far, expected %d' % (who, rec['servers'], j + 1)))
+                        'far, expected %d (connect() raised: %s)'
+                        % (who, rec['servers'], j + 1,
+                           rec.get('connect_raised'))))
             continue
         if rec['secret'] is None:
             out.append(('C secret unreadable', '%s: the server could not '
@@ -890,6 +905,10 @@ def judge_c(x, style, k, version, token, variant='plain'):
                         % (who, fb['plain'].hex(), fb['pattern'],
                            [g.hex() for g in fb['got']],
                            ' and raised ' + fb['exc'] if fb['exc'] else '')))
+        if rec.get('write_raised'):
+            out.append(('C client broke down in play', '%s: write_packet '
+                        'raised %s after the login (client errors %s)'
+                        % (who, rec['write_raised'], rec['errs_play'])))
         kas = [p[1] for p in rec['play_rx'] if p[0] == 'keepalive']
         chats = [p[1] for p in rec['play_rx'] if p[0] == 'chat']
         if kas != rec['keepalives']:
